@@ -15,11 +15,22 @@
 // and operations on a task whose pending run is already due are skipped (keeps the known spins H4 out of the
 // way of the other oracles); neither = everything, including slow executors.
 //
+// Schedules that run out (7-field crons bounded by a year, e.g. "0-5 0 0 1 1 * 2000") are part of the spec table: the
+// model marks the epoch exhausted when Next() fails after a started run; from then on the task must be gone (no
+// further run, not counted for When(), Stop() returns); a run dispatched again for a time that has been executed is
+// C24:duplicate-or-reordered-run.  A Schedule call with no occurrence left must be refused.  After three violations
+// the executor releases every task, so that a scheduler which dispatches one run forever still ends the run.
+//
 // Mode C25 (cfg c25): create (active/inactive) / update (status, schedule) / delete / restart histories through
 // middleware.CoordinatingTaskService; the tasks that execute must be exactly the existing active ones, each on the
 // schedule coordinator.NewSchedulableTask derives from the task version the coordinator was given last.
 //
-// The main goroutine lives on instants x.xx5 s (all its sleeps are multiples of 10 ms after an initial 5 ms), due
+// Configuration conc (C25): the operations are issued on whole (or half) seconds, i.e. while runs are dispatched,
+// without settling between them; every access of the in-memory store is a series of scheduling points, so that a
+// worker's checkpoint (scheduler -> backend.SchedulableTaskService -> store.UpdateTask(LatestScheduled)) can land
+// between the read and the write of one coordinating UpdateTask (probe update_during_checkpoint).
+//
+// Except in conc, the main goroutine lives on instants x.xx5 s (all its sleeps are multiples of 10 ms after an initial 5 ms), due
 // times on multiples of 100 ms: when the main goroutine has just slept, every other goroutine is blocked and no
 // timer of the scheduler fires at that instant ("quiescent point").
 package sched
@@ -55,20 +66,28 @@ type specDef struct {
 	s      string
 	period time.Duration // nominal distance of two runs (executor durations are stated in periods)
 	every  string        // non-empty: the task option `every`
+	finite bool          // the schedule runs out (7-field cron bounded by a year): Next() eventually fails
 }
 
 var specs = []specDef{
-	{"@every 1s", time.Second, "1s"},
-	{"@every 2s", 2 * time.Second, "2s"},
-	{"@every 5s", 5 * time.Second, "5s"},
-	{"@every 10s", 10 * time.Second, "10s"},
-	{"* * * * * *", time.Second, ""},
-	{"*/5 * * * * *", 5 * time.Second, ""},
-	{"15,45 * * * * *", 30 * time.Second, ""},
-	{"@every 1m", time.Minute, "1m"},
-	{"0 * * * * *", time.Minute, ""},
-	{"@every 1h", time.Hour, "1h"},
-	{"@hourly", time.Hour, ""},
+	{"@every 1s", time.Second, "1s", false},
+	{"@every 2s", 2 * time.Second, "2s", false},
+	{"@every 5s", 5 * time.Second, "5s", false},
+	{"@every 10s", 10 * time.Second, "10s", false},
+	{"* * * * * *", time.Second, "", false},
+	{"*/5 * * * * *", 5 * time.Second, "", false},
+	{"15,45 * * * * *", 30 * time.Second, "", false},
+	{"@every 1m", time.Minute, "1m", false},
+	{"0 * * * * *", time.Minute, "", false},
+	{"@every 1h", time.Hour, "1h", false},
+	{"@hourly", time.Hour, "", false},
+	// schedules with finitely many occurrences (the bubble clock starts at 2000-01-01T00:00:00Z, a Saturday)
+	{"0-5 0 0 1 1 * 2000", time.Second, "", true},         // last 00:00:05
+	{"*/2 0 0 1 1 6 2000", 2 * time.Second, "", true},     // last 00:00:58
+	{"*/10 0-1 0 1 1 * 2000", 10 * time.Second, "", true}, // last 00:01:50
+	{"*/5 0-4 0 1 1 * 2000", 5 * time.Second, "", true},   // last 00:04:55
+	{"0 0-2 0 1 1 * 2000", time.Minute, "", true},         // last 00:02:00
+	{"55-59 59 23 31 12 * 1999", time.Second, "", true},   // only reachable with LastScheduled in the past
 }
 
 // specs usable by C25 (final phase advances the clock by 65 s, every task must come due in it)
@@ -86,6 +105,9 @@ var durTenths = []int{0, 3, 10, 15, 30}
 var sleepsAll = []int{10, 100, 500, 1000, 2500, 10000, 30000, 61000, 125000}
 var sleepsCalm = []int{10, 100, 500, 1000, 2500, 10000, 30000, 61000}
 var sleepsC25 = []int{10, 500, 1500, 3000, 7000, 12000}
+
+// concurrent C25 configuration: the main goroutine stays on whole (sometimes half) seconds, where runs are due
+var sleepsConc = []int{1000, 2000, 500, 3000, 7000, 12000}
 
 const (
 	sentinelID   = scheduler.ID(1000)
@@ -129,9 +151,15 @@ type epoch struct {
 	started  int
 	released bool // Release(id) returned while this epoch was current
 	n        int
+	// the schedule has run out: Next() after the last started run failed, the scheduler must have dropped the task
+	exhausted bool
+	lastRun   time.Time
 }
 
 func (e *epoch) due() time.Time { return e.next.Add(e.off) }
+
+// pending: the model expects a further run of this epoch
+func (e *epoch) pending() bool { return e != nil && !e.exhausted }
 
 type mtask struct {
 	slot     int
@@ -158,6 +186,7 @@ type world struct {
 	pfx                 string
 	c25                 bool
 	calm                bool
+	conc                bool // C25: operations happen on the grid of due times, concurrently with dispatch and checkpoints
 	workers             int
 	sch                 *scheduler.TreeScheduler
 	byID                map[scheduler.ID]*mtask
@@ -174,6 +203,7 @@ type world struct {
 	lastRm              string // what the last operation that removed/postponed the earliest pending run was
 	stopped             bool
 	stopping            bool // Stop has been invoked on w.sch
+	gaveUp              bool // three violations reported: every task was released from inside the executor
 	whenSeen            map[string]bool
 	failKind, failState string
 	failAt              time.Time
@@ -245,7 +275,7 @@ func (w *world) mScheduled(t *mtask, s scheduler.Schedulable, spec string, perio
 	if t.cur != nil {
 		t.olds = append(t.olds, t.cur)
 		t.allow = 1
-		if old := t.cur.due(); old.Before(nx.Add(s.Offset())) {
+		if old := t.cur.due(); t.cur.pending() && old.Before(nx.Add(s.Offset())) {
 			t.lastKind = "reschedule-later"
 			w.lastRm = "reschedule-later"
 		}
@@ -292,10 +322,23 @@ func (w *world) Execute(ctx context.Context, id scheduler.ID, scheduledFor time.
 		w.violate("run-of-unknown-task", "unknown-task", "Execute(id=%d, scheduledFor=%s) for an id that was never scheduled", id, ts(scheduledFor))
 		return nil
 	}
+	if w.gaveUp {
+		return nil
+	}
 	beh := 0
 	period := time.Second
 	if e := w.match(t, scheduledFor, runAt, seq, now); e != nil {
 		period = e.period
+	}
+	if len(r.Viol) >= 3 {
+		// Enough has been reported.  A scheduler that dispatches the same run over and over never lets virtual
+		// time pass, so the main goroutine cannot end the run: take every task away from here.
+		w.gaveUp = true
+		r.Logf("  giving up after %d violations: releasing every task", len(r.Viol))
+		for _, x := range w.order {
+			w.sch.Release(x.id)
+		}
+		return nil
 	}
 	if len(t.beh) > 0 {
 		beh = t.beh[t.nruns%len(t.beh)]
@@ -349,16 +392,21 @@ func (w *world) Execute(ctx context.Context, id scheduler.ID, scheduledFor time.
 // match attributes a started run to an epoch of the model and reports what does not fit.
 func (w *world) match(t *mtask, sf, runAt time.Time, seq uint64, now time.Time) *epoch {
 	who := fmt.Sprintf("task %d (slot %d)", t.id, t.slot)
-	fits := func(e *epoch) bool { return e != nil && sf.Equal(e.next) && runAt.Equal(sf.Add(e.off)) }
+	fits := func(e *epoch) bool { return e.pending() && sf.Equal(e.next) && runAt.Equal(sf.Add(e.off)) }
 	accept := func(e *epoch) {
 		if sf.Add(e.off).After(now) {
 			w.violate("run-before-due", "early", "%s: run scheduledFor=%s offset=%v started at %s, before it came due", who, ts(sf), e.off, ts(now))
 		}
 		nx, err := e.sched.Next(sf)
 		if err != nil {
-			nx = sf.Add(1000 * time.Hour)
+			// that was the last occurrence: the scheduler cannot compute a next run and must drop the task
+			e.exhausted = true
+			nx = time.Time{}
+			w.r.Probe("probe_finite_schedule_exhausted")
+			w.r.Logf("  task%d: schedule %q has run out after %s (%v)", t.slot, e.spec, ts(sf), err)
 		}
 		e.next = nx
+		e.lastRun = sf
 		e.started++
 	}
 	if fits(t.cur) {
@@ -419,6 +467,10 @@ func (w *world) match(t *mtask, sf, runAt time.Time, seq uint64, now time.Time) 
 		pre = "schedule-"
 	}
 	switch {
+	case e.exhausted && !sf.After(e.lastRun):
+		w.violate(pre+"duplicate-or-reordered-run", "duplicate:after-schedule-ran-out", "%s: run scheduledFor=%s started at %s, but the schedule %q ran out with the run for %s, which has been executed: dispatched again for an old time", who, ts(sf), ts(now), e.spec, ts(e.lastRun))
+	case e.exhausted:
+		w.violate(pre+"run-after-schedule-ran-out", "run-after-exhaustion", "%s: run scheduledFor=%s started at %s, but the schedule %q has no occurrence after %s", who, ts(sf), ts(now), e.spec, ts(e.lastRun))
 	case !runAt.Equal(sf.Add(e.off)) && sf.Equal(e.next):
 		w.violate(pre+"wrong-run-at", "run-at", "%s: run scheduledFor=%s has runAt=%s, expected scheduledFor+offset(%v)=%s", who, ts(sf), ts(runAt), e.off, ts(sf.Add(e.off)))
 		accept(e)
@@ -474,6 +526,11 @@ func (w *world) onErr(ctx context.Context, id scheduler.ID, scheduledFor time.Ti
 	}
 	w.onErrs++
 	w.r.Probe("probe_on_error_calls")
+	var un *scheduler.ErrUnrecoverable
+	if errors.As(err, &un) && strings.Contains(err.Error(), "could not fulfil") {
+		// the iterator could not compute the run after scheduledFor: the task is being dropped
+		w.r.Probe("probe_ran_out_reported_to_onerr")
+	}
 }
 
 // ---- scheduler life cycle
@@ -541,7 +598,7 @@ func (w *world) sleep(d time.Duration) {
 // that is no due time: every other goroutine is blocked)
 
 func (w *world) quiescent(where string) {
-	if w.dead.Load() || w.stopped {
+	if w.dead.Load() || w.stopped || w.gaveUp {
 		return
 	}
 	now := time.Now()
@@ -550,7 +607,7 @@ func (w *world) quiescent(where string) {
 	nsched, nrun := 0, 0
 	for _, t := range w.order {
 		nrun += t.running
-		if t.cur == nil || t.inCall {
+		if !t.cur.pending() || t.inCall {
 			continue
 		}
 		nsched++
@@ -566,6 +623,8 @@ func (w *world) quiescent(where string) {
 			// one report per missed run
 			if nx, err := t.cur.sched.Next(t.cur.next); err == nil {
 				t.cur.next = nx
+			} else {
+				t.cur.exhausted = true
 			}
 		}
 	}
@@ -626,7 +685,7 @@ func (w *world) sampleWhen() (got, exp time.Time, expT *mtask, quiet bool) {
 	got = w.sch.When()
 	quiet = w.execs == e0
 	for _, t := range w.order {
-		if t.cur == nil || t.inCall {
+		if !t.cur.pending() || t.inCall {
 			continue
 		}
 		if due := t.cur.due(); exp.IsZero() || due.Before(exp) {
@@ -656,7 +715,7 @@ func (w *world) lastScheduled(p op, sd specDef) (scheduler.Schedule, time.Time, 
 // dangerous: in the calm configuration operations that would leave the timer armed (or fired) with nothing
 // due are not executed, so that the known spin (H4) does not mask everything else.
 func (w *world) dangerous(t *mtask) bool {
-	if !w.calm || t.cur == nil {
+	if !w.calm || !t.cur.pending() {
 		return false
 	}
 	return !t.cur.due().After(time.Now())
@@ -685,15 +744,27 @@ func (w *world) doC24(p op) {
 		}
 		s := schedulable{id: t.id, sched: sc, off: off, last: last}
 		re := t.cur != nil
-		t.beh = append([]int(nil), p.B...)
+		_, merr := sc.Next(last) // the model: is there an occurrence after LastScheduled at all?
 		inv := simrt.Seq()
 		w.mInvoke(t)
 		err = w.sch.Schedule(s)
-		if err != nil {
+		switch {
+		case err != nil && merr != nil:
+			// nothing to schedule: Schedule must refuse and leave an earlier schedule of the task in force
+			t.inCall = false
+			r.Probe("probe_schedule_rejected_ran_out")
+			r.Logf("Schedule task%d(id %d) %q last=%s rejected: %v (schedule has no occurrence left)", t.slot, t.id, sd.s, ts(last), err)
+			return
+		case err != nil:
 			t.inCall = false
 			r.Violate("machinery", "schedule-error", "Schedule(task%d %q last=%s) failed: %v", t.slot, sd.s, ts(last), err)
 			return
+		case merr != nil:
+			t.inCall = false
+			w.violate("schedule-accepted-without-occurrence", "accepted-ran-out", "Schedule(task%d %q last=%s) returned nil although the schedule has no occurrence after LastScheduled (%v)", t.slot, sd.s, ts(last), merr)
+			return
 		}
+		t.beh = append([]int(nil), p.B...)
 		if e := w.mScheduled(t, s, sd.s, sd.period); e != nil {
 			r.Violate("machinery", "next", "Next(%s) of %q: %v", ts(last), sd.s, e)
 		}
@@ -791,7 +862,7 @@ func gen(r *hx.Run) []json.RawMessage {
 			p.K = "sched"
 			p.T = o.Choose(ntasks, "t")
 			// short periods are more frequent
-			p.S = o.Pick("spec", 4, 3, 3, 2, 3, 2, 2, 1, 1, 1, 1)
+			p.S = o.Pick("spec", 4, 3, 3, 2, 3, 2, 2, 1, 1, 1, 1, 2, 2, 2, 1, 1, 2)
 			if calm {
 				p.O = o.Choose(nWholeOffsets, "off")
 			} else {
@@ -827,6 +898,7 @@ func exec(r *hx.Run, prog []json.RawMessage) {
 		w.pfx = "C25:"
 	}
 	w.calm = r.CfgBool("calm")
+	w.conc = r.CfgBool("conc")
 	w.workers = 2 + cfg.Choose(3, "workers")
 	w.idBase = cfg.Choose(4, "idbase")
 	w.busy = make([]int, w.workers)
@@ -845,7 +917,9 @@ func exec(r *hx.Run, prog []json.RawMessage) {
 		w.hookFail()
 		// leave the grid of due times (whole seconds + offsets): no operation or check of the main goroutine
 		// coincides with a timer of the scheduler
-		w.sleep(5 * time.Millisecond)
+		if !w.conc {
+			w.sleep(5 * time.Millisecond)
+		}
 		if w.c25 {
 			w.runC25(ops)
 		} else {
@@ -899,7 +973,7 @@ func (w *world) spinKind() string {
 	now := time.Now()
 	kind := "nothing-due"
 	for _, t := range w.order {
-		if t.cur == nil {
+		if !t.cur.pending() {
 			continue
 		}
 		if !t.cur.due().After(now) {
@@ -917,8 +991,10 @@ func (w *world) describe() string {
 	fmt.Fprintf(&b, "workers=%d;", w.workers)
 	for _, t := range w.order {
 		fmt.Fprintf(&b, " task%d(id %d worker %d running=%d): %s", t.slot, t.id, w.workerOf(t.id), t.running, w.curString(t))
-		if t.cur != nil {
+		if t.cur.pending() {
 			fmt.Fprintf(&b, " due=%s", ts(t.cur.due()))
+		} else if t.cur != nil {
+			b.WriteString(" (schedule ran out)")
 		}
 		b.WriteString(";")
 	}
@@ -940,14 +1016,37 @@ func (w *world) runC24(ops []op) {
 	// drain: let every scheduled task come due a few more times
 	if !w.stop() {
 		horizon := 3 * time.Second
+		finite := false
 		for _, t := range w.order {
-			if t.cur != nil && t.slot != sentinelSlot && 2*t.cur.period+3*time.Second > horizon {
-				horizon = 2*t.cur.period + 3*time.Second
+			if !t.cur.pending() || t.slot == sentinelSlot {
+				continue
+			}
+			if h := 2*t.cur.period + 3*time.Second; h > horizon {
+				horizon = h
+			}
+			// a schedule that runs out: go past its last occurrence
+			last, ends := t.cur.next, false
+			for k := 0; k < 80; k++ {
+				nx, err := t.cur.sched.Next(last)
+				if err != nil {
+					ends = true
+					break
+				}
+				last = nx
+			}
+			if ends {
+				finite = true
+				if h := last.Add(t.cur.off).Sub(time.Now()) + 3*time.Second; h > horizon {
+					horizon = h
+				}
 			}
 		}
 		maxH := 130 * time.Second
 		if w.calm {
 			maxH = 25 * time.Second
+			if finite {
+				maxH = 70 * time.Second
+			}
 		}
 		if horizon > maxH {
 			horizon = maxH
@@ -981,6 +1080,26 @@ type memSvc struct {
 	nextSched             func(t *taskmodel.Task)
 	updates               int
 	notified              map[platform.ID]*taskmodel.Task // versions handed out while LatestCompleted was being set (restart)
+	// the coordinating UpdateTask in flight: which task, and the LatestScheduled its FindTaskByID saw
+	watching bool
+	watchID  platform.ID
+	fromLS   time.Time
+	r        *hx.Run
+	slow     bool
+}
+
+// Every store access is a scheduling point: the real store is shared by the API goroutines and the scheduler's
+// workers (checkpoints), so a checkpoint may land between the read and the write of one coordinating UpdateTask.
+// In the concurrent configuration an access takes many steps, so that with any context-switch rate of the run
+// other goroutines get to work while it is under way.
+func (s *memSvc) access() {
+	n := 1
+	if s.slow {
+		n = 24
+	}
+	for i := 0; i < n; i++ {
+		simrt.Yield(0)
+	}
 }
 
 func cp(t *taskmodel.Task) *taskmodel.Task {
@@ -998,7 +1117,11 @@ func (s *memSvc) ids() []platform.ID {
 }
 
 func (s *memSvc) FindTaskByID(ctx context.Context, id platform.ID) (*taskmodel.Task, error) {
+	s.access()
 	if t := s.tasks[id]; t != nil {
+		if s.watching && id == s.watchID {
+			s.fromLS = t.LatestScheduled
+		}
 		return cp(t), nil
 	}
 	return nil, taskmodel.ErrTaskNotFound
@@ -1006,6 +1129,7 @@ func (s *memSvc) FindTaskByID(ctx context.Context, id platform.ID) (*taskmodel.T
 
 // FindTasks pages by two so that NotifyCoordinatorOfExisting's After loop is exercised.
 func (s *memSvc) FindTasks(ctx context.Context, f taskmodel.TaskFilter) ([]*taskmodel.Task, int, error) {
+	s.access()
 	var out []*taskmodel.Task
 	for _, id := range s.ids() {
 		if f.After != nil && id <= *f.After {
@@ -1020,6 +1144,7 @@ func (s *memSvc) FindTasks(ctx context.Context, f taskmodel.TaskFilter) ([]*task
 }
 
 func (s *memSvc) CreateTask(ctx context.Context, tc taskmodel.TaskCreate) (*taskmodel.Task, error) {
+	s.access()
 	t := s.nextCreate
 	s.nextCreate = nil
 	if t == nil {
@@ -1030,11 +1155,23 @@ func (s *memSvc) CreateTask(ctx context.Context, tc taskmodel.TaskCreate) (*task
 }
 
 func (s *memSvc) UpdateTask(ctx context.Context, id platform.ID, upd taskmodel.TaskUpdate) (*taskmodel.Task, error) {
+	s.access()
 	t := s.tasks[id]
 	if t == nil {
 		return nil, taskmodel.ErrTaskNotFound
 	}
 	s.updates++
+	if s.watching && id == s.watchID && upd.LatestScheduled == nil && upd.LatestCompleted == nil {
+		// the write of the coordinating UpdateTask: did a checkpoint land since its read?
+		s.watching = false
+		if !t.LatestScheduled.Equal(s.fromLS) {
+			s.r.Probe("probe_update_during_checkpoint")
+			if upd.Flux != nil {
+				s.r.Probe("probe_schedule_update_during_checkpoint")
+			}
+			s.r.Logf("  store: checkpoint %s landed between the read (%s) and the write of UpdateTask(%d)", ts(t.LatestScheduled), ts(s.fromLS), id)
+		}
+	}
 	// as kv.Service.updateTask does: an activation moves both marks to now (no catch-up of the inactive
 	// period), and the marks only move forward
 	if upd.Status != nil && t.Status != *upd.Status {
@@ -1061,6 +1198,7 @@ func (s *memSvc) UpdateTask(ctx context.Context, id platform.ID, upd taskmodel.T
 }
 
 func (s *memSvc) DeleteTask(ctx context.Context, id platform.ID) error {
+	s.access()
 	if s.tasks[id] == nil {
 		return taskmodel.ErrTaskNotFound
 	}
@@ -1100,10 +1238,15 @@ func genC25(r *hx.Run) []json.RawMessage {
 	o := r.Ops
 	ntasks := 1 + o.Choose(4, "ntasks")
 	nops := o.Range(3, r.CfgInt("maxops", 14), "nops")
+	conc := r.CfgBool("conc")
 	var prog []json.RawMessage
 	for i := 0; i < nops; i++ {
 		var p op
 		k := o.Pick("op", 5, 5, 2, 1, 4)
+		if conc {
+			// mostly schedule updates of running tasks, issued at whole seconds: while runs are dispatched
+			k = o.Pick("opc", 4, 9, 1, 1, 6)
+		}
 		if i == 0 {
 			k = 0
 		}
@@ -1114,6 +1257,10 @@ func genC25(r *hx.Run) []json.RawMessage {
 			p.In = o.Bool(1, 3, "inactive")
 			p.S = o.Choose(len(c25Specs), "spec")
 			p.O = o.Choose(3, "off")
+			if conc {
+				p.In = o.Bool(1, 6, "inactivec")
+				p.S = o.Pick("specc", 5, 4, 2, 1, 5, 2, 1, 1, 1) // short periods: something is due every second
+			}
 		case 1:
 			p.K = "update"
 			p.T = o.Choose(ntasks, "t")
@@ -1121,6 +1268,11 @@ func genC25(r *hx.Run) []json.RawMessage {
 			p.Sp = o.Bool(1, 2, "newspec")
 			p.S = o.Choose(len(c25Specs), "spec")
 			p.O = o.Choose(3, "off")
+			if conc {
+				p.St = o.Pick("statusc", 6, 1, 1)
+				p.Sp = !o.Bool(1, 5, "samespec")
+				p.S = o.Pick("specc", 5, 4, 2, 1, 5, 2, 1, 1, 1)
+			}
 		case 2:
 			p.K = "delete"
 			p.T = o.Choose(ntasks, "t")
@@ -1129,6 +1281,9 @@ func genC25(r *hx.Run) []json.RawMessage {
 		case 4:
 			p.K = "sleep"
 			p.Ms = sleepsC25[o.Choose(len(sleepsC25), "ms")]
+			if conc {
+				p.Ms = sleepsConc[o.Pick("msc", 6, 4, 2, 2, 1, 1)]
+			}
 		}
 		b, _ := json.Marshal(p)
 		prog = append(prog, b)
@@ -1249,8 +1404,10 @@ func (w *world) doC25(p op) {
 			what += fmt.Sprintf(" spec=%q offset=%v", specs[c25Specs[p.S%len(c25Specs)]].s, offsets[p.O%3])
 		}
 		was := w.svc.tasks[pid].Status
+		w.svc.watching, w.svc.watchID = true, pid
 		w.mInvoke(t)
 		to, err := w.mw.UpdateTask(ctx, pid, upd)
+		w.svc.watching = false
 		if err != nil {
 			t.inCall = false
 			r.Violate("machinery", "update", "UpdateTask: %v", err)
@@ -1333,7 +1490,7 @@ func (w *world) doC25(p op) {
 
 func (w *world) runC25(ops []op) {
 	r := w.r
-	w.svc = &memSvc{tasks: map[platform.ID]*taskmodel.Task{}}
+	w.svc = &memSvc{tasks: map[platform.ID]*taskmodel.Task{}, r: r, slow: w.conc}
 	if !w.startC25() {
 		return
 	}
@@ -1343,7 +1500,7 @@ func (w *world) runC25(ops []op) {
 		}
 		w.doC25(p)
 		r.Sim.Progress.Add(1)
-		if p.K != "sleep" && !w.stop() {
+		if p.K != "sleep" && !w.conc && !w.stop() {
 			// let catch-up runs of a schedule that starts in the past finish before the next operation: C25 is
 			// about which tasks are scheduled, the races of operations with runs in flight belong to C24
 			w.sleep(10 * time.Millisecond)
